@@ -115,4 +115,8 @@ var pinned = []Case{
 			nv(taref.Float32, 0, 2), {K: "includes", V: 2, A: []Arg{n(math.NaN())}}, {K: "indexOf", V: 2, A: []Arg{n(math.NaN())}},
 			{K: "newObj", T: int(taref.BigUint64), A: []Arg{{K: "arr", L: []Arg{big_("18446744073709551615")}}}, Out: 3, OutB: 3},
 			{K: "indexOf", V: 3, A: []Arg{big_("-1")}}, {K: "includes", V: 3, A: []Arg{big_("18446744073709551615")}}}},
+	{Tag: "C17-17 toLocaleString: an element's toLocaleString detaches the buffer (remaining elements are undefined -> empty strings; no out-of-buffer read)",
+		Bufs: []BufSpec{script0(0, 8), gobuf(1, 12, 9, false)},
+		Ops: []Op{nv(taref.Uint8, 0, 0, n(2), n(3)), {K: "tls", V: 0, N: 1, At: 0, E: detachEff(0)},
+			nv(taref.Float32, 1, 1, n(4), n(2)), {K: "tls", V: 1, N: 2, At: 0, E: detachEff(1)}}},
 }
